@@ -269,12 +269,13 @@ pub async fn run_step(ldap: &mut Ldap, other: &mut Ldap, step: &Step, tok: u64, 
             obs.outcome = read_all(ldap, adapters, &format!("op={},b=paged{}x{}", tok, n, p), None).await;
         }
         Step::TimeoutSingle(late) => {
-            ldap.with_timeout(Duration::from_millis(100));
+            // a zero timeout fires before the driver has even seen the request
+            ldap.with_timeout(Duration::from_millis(if tok % 3 == 0 { 0 } else { 100 }));
             let o = invoke(ldap, &Call::Delete { dn: format!("op={},b={}", tok, if *late { "late400" } else { "silent" }) }).await;
             obs.outcome = o.class();
         }
         Step::TimeoutStream(n, k) => {
-            ldap.with_timeout(Duration::from_millis(100));
+            ldap.with_timeout(Duration::from_millis(if tok % 3 == 0 { 0 } else { 100 }));
             obs.outcome = read_all(ldap, vec![], &format!("op={},b=hold{}:{}:700", tok, n, k), None).await;
         }
         Step::AbandonFinished => {
